@@ -70,8 +70,21 @@ def gen_ct(rng):
             "accommodated_spectra": gen_acc(rng)}
 
 
+_ACC_POOL = []       # (lower wavelength, pixels) pairs used so far in the case being generated: spectra come and go and come back
+
+
 def gen_acc(rng):
-    return [[round(rng.uniform(300, 480), 2), rng.choice([1, 2, 8, 32, 64])] for _ in range(rng.randint(1, 3))]
+    out = []
+    for _ in range(rng.randint(1, 3)):
+        if _ACC_POOL and rng.random() < 0.5:
+            out.append(list(rng.choice(_ACC_POOL)))
+            continue
+        wl = float(rng.randint(300, 480)) if rng.random() < 0.25 else round(rng.uniform(300, 480), 2)
+        pair = [wl, rng.choice([1, 2, 8, 32, 64])]
+        if len(_ACC_POOL) < 5:
+            _ACC_POOL.append(pair)
+        out.append(list(pair))
+    return out
 
 
 def gen_filter(rng, i):
@@ -118,6 +131,7 @@ class InstrumentMachine(Machine):
     # ------------------------------------------------------------------ generation
     def generate(self, rng, tier):
         kind = rng.choice(["spectrometer", "spectrometer", "czerny", "polychromator"])
+        del _ACC_POOL[:]
         cfg = {"kind": kind}
         if kind == "spectrometer":
             cfg["spec"] = {"wavelength_to_pixel": [gen_edges(rng) for _ in range(rng.randint(1, 3))],
@@ -141,7 +155,7 @@ class InstrumentMachine(Machine):
             if u < 0.40:
                 a = rng.choice(focus)
                 ops.append({"op": "set", "attr": a, "value": self._value(rng, kind, a, cfg),
-                            "as": rng.choice(["plain", "plain", "plain", "numpy", "tuple", "generator"])})
+                            "as": rng.choice(["plain", "plain", "plain", "numpy", "tuple", "generator", "int", "float32"])})
             elif u < 0.48:
                 a = rng.choice(focus)
                 v = self._invalid(rng, kind, a)
@@ -242,6 +256,11 @@ class InstrumentMachine(Machine):
                 return [np.array(v, dtype=np.float64) for v in value]
             if attr == "accommodated_spectra":
                 return [(np.float64(p[0]), np.int64(p[1])) for p in value]
+        if how == "int" and attr == "accommodated_spectra":
+            # integer-valued wavelengths written as Python ints (400 instead of 400.0)
+            return [(int(p[0]) if float(p[0]) == int(p[0]) else p[0], p[1]) for p in value]
+        if how == "float32" and attr == "accommodated_spectra":
+            return [(np.float32(p[0]), p[1]) for p in value]
         if how == "tuple" and isinstance(value, list) and attr in ("wavelength_to_pixel", "accommodated_spectra"):
             return tuple(tuple(v) for v in value)
         return value
@@ -400,6 +419,9 @@ class InstrumentMachine(Machine):
                 else:
                     self._apply(c, c.obj, a, op["value"], subject=True)
                 c.spec[a] = op["value"]
+                if how == "float32" and a == "accommodated_spectra":
+                    # the value handed over *is* the single-precision number
+                    c.spec[a] = [[float(np.float32(p[0])), p[1]] for p in op["value"]]
             except Exception as e:
                 out = "raised:" + type(e).__name__
                 for aa, v in self._param_getters(c, c.obj).items():
